@@ -10,6 +10,7 @@ import (
 	"golang.org/x/tools/go/ssa"
 
 	"mtverif/internal/core"
+	"mtverif/internal/tree"
 	"mtverif/internal/fde"
 )
 
@@ -677,6 +678,21 @@ func bomSwitchCheck(c *core.Ctx, s *core.Sink, f *ssa.Function) {
 		bad := ""
 		for _, de := range core.DominatingConds(r.Block()) {
 			cond, val := core.StripNot(de.Cond, de.Val)
+			if hp, isCall := cond.(*ssa.Call); isCall && val && core.CalleeIs(&hp.Call, "bytes", "HasPrefix") && hp.Call.Args[0] == ssa.Value(in) {
+				// a whole mark at once: its bytes and its length
+				if mk, isC := tree.ConstBytes(hp.Call.Args[1]); isC {
+					for i, b := range mk {
+						if old, dup := eq[int64(i)]; dup && old != int64(b) {
+							bad = "contradictory byte tests"
+						}
+						eq[int64(i)] = int64(b)
+					}
+					if int64(len(mk)) > minLen {
+						minLen = int64(len(mk))
+					}
+				}
+				continue
+			}
 			bo, ok := cond.(*ssa.BinOp)
 			if !ok {
 				continue
@@ -745,6 +761,13 @@ func bomSwitchCheck(c *core.Ctx, s *core.Sink, f *ssa.Function) {
 					}
 					if isLen(v) {
 						ev.Env[v] = constant.MakeInt64(int64(len(w.mark) + extra))
+					}
+					if hp, isCall := v.(*ssa.Call); isCall && core.CalleeIs(&hp.Call, "bytes", "HasPrefix") && hp.Call.Args[0] == ssa.Value(in) {
+						// the input is the mark followed by `extra` filler bytes: whether a constant is its prefix is known
+						if mk, isC := tree.ConstBytes(hp.Call.Args[1]); isC {
+							input := append(append([]byte{}, w.mark...), bytes.Repeat([]byte{0x41}, extra)...)
+							ev.Env[v] = constant.MakeBool(bytes.HasPrefix(input, mk))
+						}
 					}
 					if u, ok := v.(*ssa.UnOp); ok && u.Op == token.MUL {
 						if ia, ok := u.X.(*ssa.IndexAddr); ok && ia.X == ssa.Value(in) {
